@@ -350,6 +350,9 @@ func applyC14Edit(g *rng.R, w0 *world.World, cfg world.Cfg, kind int) (*world.Wo
 				hasI, hasE := np.HasDirection(true), np.HasDirection(false)
 				if hasI && hasE == (len(np.Egress) > 0) {
 					np.HasTypes, np.PolicyTypes = false, nil
+					if g.P(0.6) { // the direction without rules written as an empty list / null: still "no rules", still defaulted the same way
+						np.EmptySpelling = rng.Pick(g, []string{"list", "list", "null"})
+					}
 					return w, "spellPolicyTypes", "equal", nil
 				}
 			} else {
@@ -361,6 +364,7 @@ func applyC14Edit(g *rng.R, w0 *world.World, cfg world.Cfg, kind int) (*world.Wo
 					types[0], types[1] = types[1], types[0]
 				}
 				np.HasTypes, np.PolicyTypes = true, types
+				np.EmptySpelling = rng.Pick(g, []string{np.EmptySpelling, "", "list", "null"})
 				return w, "spellPolicyTypes", "equal", nil
 			}
 		}
